@@ -121,7 +121,7 @@ Section Funcs.
         assert (G4 : GI H J (setb D c true) (funcs_disconnect c w3)).
         { assert (Pd : c_ph (conns w3 c) = PDead) by (unfold CI in A3; tauto).
           unfold funcs_disconnect. destruct (c_st (conns w3 c)); try exact G3.
-          all: eapply GI_put; [exact G3 | intros; auto | rewrite setb_same; apply CI_dead_reg; auto | simpl; tauto ]. }
+          all: eapply GI_put; [exact G3 | intros; auto | rewrite setb_same; apply CI_dead_reg; auto | simpl; tauto | auto ]. }
         unfold unref_s. apply safe_chks.
         set (w4 := funcs_disconnect c w3) in *.
         assert (F : forall a r, safe (fun w5 _ => safe (fun w' _ => GI H J D w')
@@ -143,6 +143,7 @@ Section Funcs.
   (* unref where the caller moves one unit of ownership out of its context: (H,J) -> (H',J') at c *)
   Lemma unref_gen : forall H J D H' J' c w,
     GI H J D w -> (forall i, i <> c -> H' i = H i /\ J' i = J i) -> D c = false ->
+    (J' c = 3 -> J c = 3) ->
     live (conns w c) ->
     (c_rc (conns w c) - 1 <> 0 ->
        CI (H' c) (J' c) false (cnt c (jobs w)) (mem_id c (s_list w)) (w_rc (c_rc (conns w c) - 1) (conns w c))) ->
@@ -151,7 +152,7 @@ Section Funcs.
        CI (H' c) (J' c) true (cnt c (jobs w)) false (w_ph PDead (w_rc 0 (conns w c)))) ->
     safe (fun w' _ => GI H' J' D w') (conn_unref cb c w).
   Proof.
-    intros H J D H' J' c w G E Dc L Hn Hz. pose proof G as (A & B & C). pose proof (A c) as Ac.
+    intros H J D H' J' c w G E Dc HJ3 L Hn Hz. pose proof G as (A & B & C). pose proof (A c) as Ac.
     apply unref_ok; auto.
     - eapply CI_live_alloc; eauto.
     - eapply CI_live_rc; eauto.
@@ -165,7 +166,7 @@ Section Funcs.
       + intros i. simpl. unfold updf. destruct (Nat.eqb_spec i c).
         * subst. rewrite setb_same, mem_remove_same. exact Q3.
         * rewrite setb_other, mem_remove_other by auto. destruct (E i n) as [-> ->]. apply A.
-      + simpl. apply desc_remove; auto.
+      + simpl. apply LI_remove. destruct B as [B1 B2]. split; auto. intros c0 b E0 Hb. destruct (Nat.eq_dec c0 c) as [->|Ne]; [|destruct (E c0 Ne) as [_ E1]; rewrite E1 in E0; eauto]. apply HJ3 in E0. eauto.
       + simpl. intros i Hi. unfold updf. destruct (Nat.eqb_spec i c); auto.
         subst. specialize (C c Hi). unfold live in L. rewrite C in L. tauto.
   Qed.
@@ -216,6 +217,7 @@ Section Funcs.
         apply safe_chk. { eapply CI_live_alloc; eauto. }
         eapply unref_gen; eauto.
         * intros i Hi. rewrite setf_other; auto.
+        * intros E3. rewrite Hj in E3. discriminate.
         * intros. rewrite Hj. rewrite Dc in Ac. apply CI_done_unref_n; auto.
         * intros. rewrite Hj. rewrite Dc in Ac. eapply CI_done_unref_z; eauto.
       + eapply GI_ext; [| | | | apply (Hg p' 2 O)]; try reflexivity.
@@ -229,6 +231,7 @@ Section Funcs.
         assert (Al : c_alloc (conns w2 c) = true) by (eapply CI_live_alloc; eauto).
         apply safe_chk; auto. apply safe_chks. apply safe_chk; auto. simpl.
         unfold GI; simpl. split; [|split]; auto.
+        2: { eapply LI_setf_out; [|exact B2]. rewrite Hj; discriminate. }
         intros i. rewrite cnt_app. simpl. destruct (Nat.eqb_spec c i).
         * subst i. rewrite Hj. replace (cnt c (jobs w2) + (1 + 0)) with (cnt c (jobs w2) + 1) by lia.
           apply CI_retry_job; auto.
@@ -286,6 +289,7 @@ Section Funcs.
         * intros i Hi. rewrite setf_other; auto.
         * rewrite setf_same. rewrite F3 in Ac. rewrite F4 in *. apply CI_sd_target_est; auto.
         * simpl. unfold closed_outcome in O. unfold live in L. destruct (c_ph (conns w c)); intuition congruence.
+        * rewrite setf_same. unfold closed_outcome in O. intros E3. destruct O as [[_ ->]|[_ ->]]; discriminate.
     - (* SHUTTING_DOWN: closed_notified is set *)
       unfold disconnect_sd. apply safe_chk; auto.
       rewrite (CI_sd_facts _ _ _ _ _ _ Ac L S). simpl. auto.
@@ -312,11 +316,12 @@ Section Funcs.
     simpl conns. rewrite updf_same. intros p' j' O.
     eapply GI_ext with (w := put c (w_ph p' (w_notified true (w_notified false (conns w c)))) (set_jobs t w)); try reflexivity.
     - intros i. ext.
-    - unfold GI; simpl. split; [|split]; auto.
-      intros i. unfold updf. destruct (Nat.eqb_spec i c).
-      + subst i. rewrite setf_same, N2. rewrite Hj in Ac. apply CI_sd_target_job; auto.
-      + rewrite setf_other by auto. specialize (A i). rewrite Ej in A. simpl in A.
-        destruct (Nat.eqb_spec c i); try congruence. simpl in A. auto.
+    - unfold GI; simpl. split; [|split].
+      + intros i. unfold updf. destruct (Nat.eqb_spec i c).
+        * subst i. rewrite setf_same, N2. rewrite Hj in Ac. apply CI_sd_target_job; auto.
+        * rewrite setf_other by auto. specialize (A i). rewrite Ej in A. simpl in A.
+          destruct (Nat.eqb_spec c i); try congruence. simpl in A. auto.
+      + apply LI_setf_in; auto. unfold closed_outcome in O. destruct O as [[_ ->]|[_ ->]]; discriminate.
       + intros i Hi. unfold updf. destruct (Nat.eqb_spec i c); auto.
         subst i. rewrite (C c Hi) in P. discriminate.
   Qed.
